@@ -298,6 +298,11 @@ func (h *Handler) HandleReadFileCritical(ctx *Context, limit uint32, offset uint
 		return fmt.Errorf("no file opened")
 	}
 
+	// nothing to read means nothing to position: an offset the file cannot seek to is not a reason to drop the client
+	if limit == 0 {
+		return nil
+	}
+
 	if _, err := ctx.State.ROFile.Seek(int64(offset), io.SeekStart); err != nil {
 		return fmt.Errorf("seek failed: %w", err)
 	}
